@@ -37,6 +37,12 @@ CLAIMED = {
  "C05": ("proof", "E2+E3", "the exact-arithmetic boundary: grid domain for every queryable position incl. generators exactly on walls (reals: all boxes; bits: windows); HalfSpace::{new,clip} under kani::requires/ensures on the real functions (error bound finite positive, answer in {-1,0,+1}, 0 iff within the bound, never NaN) with glam's dot under its own proved contract; wiring of the exact path in clip_by_plane; right_loc of a wall is the mirror image",
          "A-REAL, A-ROUND, input windows; absence of the three panic sites, termination of build and adequacy of errb as a rounding bound are NOT decided",
          TECH + " — Kani function contracts (proof_for_contract, stub of glam dot by its proved contract) + E2 contracts on iloc / right_loc / the vertex-loop slice"),
+ "C16": ("proof", "E2+E3", "the three mechanisms: radius2 of every vertex is the squared distance to the generator in the active subspace (Vertex::from_dual, all inputs); the neighbour loop returns exactly when safety_radius < distance and clips otherwise; safety_radius is written only by update_safety_radius, which runs after every rebuild of the vertex set; update_safety_radius = 2*sqrt(max radius2) (bounded Kani stand-in)",
+         "A-REAL, A-SQRT; update_safety_radius is bounded (3/4 vertices) and never counted as proved; the security-radius theorem itself (farther generators cannot change the cell) is mathematics about convex polytopes and NOT decided",
+         TECH + " — E2 contracts on Vertex::from_dual and the neighbour-loop slice + syntactic frame obligations; bounded Kani harness on update_safety_radius"),
+ "C15": ("proof", "E1+E3", "ordering / index contracts: Vertex::plane_idx (first position or None, terminates; Verus and Kani over all inputs); sort_face_vertices only permutes the index list, keeps the first corner, orders consecutive corners along shared planes, terminates (Verus, loop invariants, verbatim slice); with_faces panics for 1D/2D and not for 3D (Kani on the real fn); face data is Some wherever the unchecked accessors are reachable (syntactic type-state obligations)",
+         "sort_face_vertices may panic (postcondition on return); polytope validity (vertex = plane intersection, planarity, convexity, Euler, area) NOT decided; unsafe blocks unverified",
+         TECH + " — Verus on verbatim slices with spliced contracts and loop invariants; Kani harnesses on the real crate; syntactic type-state checks"),
 }
 NA = {
 }
